@@ -4,6 +4,7 @@ Require Import MV.Base.Prelude MV.Base.CInt MV.Base.Index MV.Base.BorderSpec.
 Require Import MV.Gen.Scalar_gen MV.Model.Filter MV.Model.Morph.
 Require Import MV.Proof.BorderNearest MV.Proof.ScalarSat MV.Proof.MorphProof.
 Require Import MV.Model.MorphFast MV.Proof.MorphLaws MV.Proof.MorphFastProof MV.Gen.FastPath_gen MV.Proof.FastPathTie.
+Require Import MV.Gen.Offsets_gen MV.Model.OffsetsTable MV.Proof.OffsetsAxis MV.Proof.OffsetsProof.
 
 Theorem C01_erode_sub_saturates : forall t a b,
   wf_ity t -> in_range t a -> 0 <= b <= tmax t -> b <> tmin t -> erode_sub t a b = sat t (a - b).
@@ -53,3 +54,27 @@ Proof. exact gen_updates_are_model_updates. Qed.
 
 Theorem C01_fast_path_seed_and_member_list_recognised : gen_fb_seed_recognised = true.
 Proof. exact gen_seed_recognised. Qed.
+
+(* The shared filter machinery erode/dilate (and every other neighbourhood kernel) read through: the offsets table of
+   _filters.cpp, whose per-axis arithmetic is RE-TRANSLATED from init_filter_offsets / init_filter_iterator / iterate_both on
+   this run (Gen/Offsets_gen.v).  At the n-th pixel of the filtering loop the iterator is at that pixel's position and its
+   table pointer selects a row equal, entry by entry, to the row computed directly AT THAT PIXEL -- for every number of
+   dimensions, every array and filter shape (filters larger than the image, axes of length 1, even sizes), every footprint,
+   all six border modes and arbitrary (negative, Fortran, padded) array strides. *)
+Theorem C01_offsets_table_row_is_the_pixels_own_row : forall mode axes fp n,
+  valid_mode mode -> axes_ok axes -> Zlen fp = prodZ (fdims axes) -> Z.of_nat n < prodZ (adims axes) ->
+  let cp := walk axes (rowlen_of fp) n in
+  snd cp = le_digits (adims axes) (Z.of_nat n) /\
+  firstn (Z.to_nat (rowlen_of fp)) (skipn (Z.to_nat (fst cp)) (table mode axes fp)) = row mode axes fp (snd cp).
+Proof. exact offsets_row_at_pixel. Qed.
+
+(* ... and such an entry is the flag exactly when the border rule says "outside", otherwise the distance in elements from the
+   pixel to the border-mapped window position: fix(k_d - f_d/2 + p_d) per axis, whatever order the axes are visited in *)
+Theorem C01_offsets_entry_is_border_mapped_window_position : forall mode axes pos coords,
+  valid_mode mode -> axes_ok axes -> digits_in pos (adims axes) -> length coords = length axes ->
+  entry mode axes pos coords 0
+  = match mapped mode axes pos coords with Some q => addr axes q - addr axes pos | None => border_flag_value end.
+Proof.
+  intros mode axes pos coords Hm Hax Hp Hl. rewrite entry_char, entry_sum_is_address by auto.
+  destruct (mapped mode axes pos coords); reflexivity.
+Qed.
